@@ -22,7 +22,8 @@ def descs(ctx: Ctx) -> list[dict]:
     out = []
     for backend in env.BACKENDS:
         for queue in ("single", "dup", "two", "blocking", "recovery", "kill", "foreign-kill", "late-finish"):
-            out.append(dict(backend=backend, queue=queue, n=2, k=2 if queue == "two" else 1, bound=2))
+            out.append(dict(backend=backend, queue=queue, n=2, k=2 if queue == "two" else 1,
+                            bound=1 if queue == "two" else 2))
         out.append(dict(backend=backend, queue="dup", n=3, k=1, bound=1))
         out.append(dict(backend=backend, queue="dup", n=4, k=1, bound=0))
         out.append(dict(backend=backend, queue="two", n=4, k=2, bound=0))
